@@ -394,7 +394,8 @@ fn backing_file(dir: &std::path::Path, name: &str, content: Option<&[u8]>, ctx: 
     if p.is_file() {
         return p;
     }
-    if let Some(want) = content {
+    // (only for values long enough to be unique: short payloads of different keys coincide)
+    if let Some(want) = content.filter(|w| w.len() >= 8) {
         let mut stack = vec![dir.to_path_buf()];
         while let Some(d) = stack.pop() {
             for e in std::fs::read_dir(&d).into_iter().flatten().flatten() {
